@@ -30,7 +30,7 @@ MANIFEST = {
 }
 GEN = ["OptDev"]
 RULE = ("cases = EDFA calls on random optical fields (N in {1,2,3,5,8,16,33,64,257}, 1/2 pol, incoming noise none/random/zero-sum/zero, "
-        "dtype complex/float/int/mixed = real-dtype signal with complex-dtype noise attached after construction) x G_dB in [0,40] (incl. 0 and 40) x NF_dB in [3,10] x gv(sps,R,wavelength) set explicitly x numpy seed; "
+        "dtype complex/float/int/mixed = real-dtype signal with complex-dtype noise attached after construction) x G_dB in [0,40] (incl. 0 and 40) x NF_dB in [3,10] x gv set explicitly in every form ((sps,R), (sps,fs), (R,fs) incl. fs not a multiple of R, fs alone; with/without slot count N; wavelength) x numpy seed; "
         "plus chains of two amplifiers (second stage fed with the first stage's output object, draws of both spied), BW cases (BW partly from a small fixed set so that it recurs under different sampling rates; reference = Bessel filter designed afresh by scipy for the rate in force), BW histories (one BW under 2-3 sampling rates in sequence and back, within one process), non-optical inputs (ndarray, electrical_signal, list, scalar, None, binary_sequence) and "
         "ASE soaks of 2^16..2^18 samples. non-trivial = accepted call with N>=2, non-zero field; distinct by (n_pol, noise kind, dtype, N, G, NF, gv)")
 PARTIAL = [
@@ -58,8 +58,32 @@ BAD_INPUTS = ["ndarray", "ndarray2d", "esig", "list", "float", "int", "none", "b
 
 
 def _gvspec(rng):
-    return {"sps": rng.choice([4, 8, 16, 32]), "R": rng.choice([1e9, 2.5e9, 10e9, 40e9]),
-            "wavelength": rng.choice([1550e-9, 1550e-9, 1310e-9, 1530.33e-9])}
+    """every way of configuring gv: (sps, R), (sps, fs), (R, fs) — also with fs NOT an integer multiple of R —, fs alone (R stays
+    at its 1e9 default), each optionally with a slot count N in force.  Absent arguments are None."""
+    wl = rng.choice([1550e-9, 1550e-9, 1310e-9, 1530.33e-9])
+    form = rng.choice(["sps,R", "sps,R", "sps,fs", "R,fs", "R,fs", "fs"])
+    g = {"form": form, "sps": None, "R": None, "fs": None, "N": rng.choice([None, None, 4, 10]), "wavelength": wl}
+    if form == "sps,R":
+        g.update(sps=rng.choice([4, 8, 16, 32]), R=rng.choice([1e9, 2.5e9, 10e9, 40e9]))
+    elif form == "sps,fs":
+        g.update(sps=rng.choice([4, 8, 16, 32]), fs=rng.choice([16e9, 25e9, 40e9, 64e9, 12.4e9]))
+    elif form == "R,fs":
+        R, fs = rng.choice([(10e9, 25e9), (10e9, 35e9), (10e9, 40e9), (2.5e9, 16e9), (1e9, 12.4e9), (10e9, 80e9), (4e9, 30e9)])
+        g.update(R=R, fs=fs)
+    else:
+        g.update(fs=rng.choice([12.4e9, 16e9, 20.5e9, 33.3e9]))
+    return g
+
+
+def _fs_req(g):
+    """the sampling rate the configuration asks for"""
+    return float(g["fs"]) if g.get("fs") else float(g["sps"]) * float(g["R"])
+
+
+def _gv_apply(g):
+    from opticomlib.typing import gv
+    gv.clean()
+    gv(**{k: g[k] for k in ("sps", "R", "fs", "N", "wavelength") if g.get(k) is not None})
 
 
 def _gnf(rng):
@@ -96,7 +120,7 @@ def gen_cases(rng, tier):
         n = rng.choice([16, 17, 33, 64, 128, 257, 8, 15])       # 4th-order Bessel: padding 15 -> rows of <= 15 samples are rejected
         g = _gvspec(rng)
         G, NF = _gnf(rng)
-        fs_ = g["sps"] * g["R"]
+        fs_ = _fs_req(g)
         bw = rng.uniform(0.05, 0.8) * fs_
         if rng.random() < 0.5:
             # a small fixed set, so that the same BW value recurs in one process under different sampling rates
@@ -186,7 +210,7 @@ def _run_hist(case, res):
         steps.append(st)
         gv.clean()
         gv(sps=g["sps"], R=g["R"], wavelength=g["wavelength"])
-        st.update(h=float(sc.h), f0=float(gv.f0), fs=float(gv.fs))
+        st.update(h=float(sc.h), f0=float(gv.f0), fs=float(gv.fs), fs_req=float(g["sps"]) * float(g["R"]))
         rec = []
 
         def spy(*shape):
@@ -236,8 +260,8 @@ def run_impl(case):
                 _run_hist(case, res)
                 return res
             g = case["gv"]
-            gv(sps=g["sps"], R=g["R"], wavelength=g["wavelength"])
-            res.update(h=float(sc.h), f0=float(gv.f0), fs=float(gv.fs))
+            _gv_apply(g)
+            res.update(h=float(sc.h), f0=float(gv.f0), fs=float(gv.fs), fs_req=_fs_req(g), sps_R=float(gv.sps) * float(gv.R))
             if case["kind"] == "edfa_bad":
                 x = _bad_input(case["bad"])
             elif case["kind"] == "soak":
@@ -522,6 +546,8 @@ def oracle(case, res):
     m = res["main"]
     if m["status"] == "timeout":
         return [("C10:timeout", "EDFA did not return")]
+    if "fs_req" in res and not (abs(res["fs"] - res["fs_req"]) <= 1e-12 * res["fs_req"]):
+        v.append(("C10:gv-fs", f"gv configured with {case['gv']} reports fs={res['fs']!r}, requested {res['fs_req']!r}"))
     for path, part, row, idx in F.nonfinite_outputs({k: res[k] for k in ("main", "twin", "bw", "bpf", "steps") if k in res})[:3]:
         # every generated input is finite, G/NF/gv inside the statement's ranges: the documented formulas give finite outputs
         v.append(("C10:non-finite", f"{path}: {part} row {row} sample {idx} is NaN/inf although all inputs are finite"))
@@ -645,7 +671,9 @@ def features(case, res):
         if fl.get("dark") is not None:
             f.append("dark-pol" + ("+noise" if fl["noise"] is not None else ""))
     f.append("G=" + ("0" if case["G"] == 0 else "40" if case["G"] == 40 else "mid"))
-    f.append(f"sps={case['gv']['sps']}")
+    f.append("gv=" + str(case["gv"].get("form", "sps,R")) + ("+N" if case["gv"].get("N") else ""))
+    if "sps_R" in res and res.get("fs") is not None:
+        f.append("fs==sps*R" if res["sps_R"] == res["fs"] else "fs!=sps*R")
     if case.get("stage2"):
         f.append("chain2:" + str(((res.get("stage2") or {}).get("main") or {}).get("status")) + ":" + "/".join(str(d) for d in (res.get("stage2") or {}).get("in_dtypes", [])))
     if case["BW"] is not None:
@@ -667,6 +695,6 @@ def nontrivial_key(case, res):
     if fl["sig"] is not None and not any(abs(re) + abs(im) > 0 for row in fl["sig"] for re, im in row):
         return None
     g = case["gv"]
-    return (case["kind"], fl["npol"], fl["noise_kind"], fl["dtype"], fl["n"], case["G"], case["NF"], g["sps"], g["R"], g["wavelength"],
+    return (case["kind"], fl["npol"], fl["noise_kind"], fl["dtype"], fl["n"], case["G"], case["NF"], g.get("sps"), g.get("R"), g.get("fs"), g.get("N"), g["wavelength"],
             case.get("BW"), tuple((q["sps"], q["R"]) for q in case.get("seq", [])),
             None if not case.get("stage2") else (case["stage2"]["G"], case["stage2"]["NF"]))
